@@ -427,8 +427,15 @@ func (m *Machine) tick() (bool, error) {
 		v := m.popValue()
 		switch v := v.(type) {
 		case machine.Asset:
-			m.Balances[a][v] = machine.Zero
+			// saving everything never makes more available than there was
+			if m.Balances[a][v].Gt(machine.Zero) {
+				m.Balances[a][v] = machine.Zero
+			}
 		case machine.Monetary:
+			if v.Amount.Ltz() {
+				return true, machine.NewErrNegativeAmount("cannot save a monetary with a negative amount: [%s %s]",
+					string(v.Asset), v.Amount)
+			}
 			m.Balances[a][v.Asset] = m.Balances[a][v.Asset].Sub(v.Amount)
 		default:
 			panic(fmt.Errorf("invalid value type: %T", v))
